@@ -9,6 +9,10 @@
 #include "flaw.h"
 #include "resolver.h"
 #include "atom_flaw.h"
+#include "type.h"
+#include "enum_type.h"
+#include "item.h"
+#include <map>
 #include <set>
 #include <algorithm>
 #include <vector>
@@ -21,6 +25,93 @@ namespace oratio_verif
 {
   struct access
   {
+    // the spelling of every string item that is a value of an enum type (the solution JSON shows their ids only)
+    static void strings_of(const std::map<std::string, type *> &ts, std::ostringstream &o, bool &first, std::set<const type *> &seen)
+    {
+      for (const auto &[n, t] : ts)
+      {
+        if (!seen.insert(t).second)
+          continue;
+        for (const auto &i : t->get_instances())
+          if (const string_item *si = dynamic_cast<const string_item *>(&*i))
+          {
+            std::string v = si->get_value();
+            std::string esc;
+            for (char c : v)
+              if (c == '"' || c == '\\')
+              {
+                esc.push_back('\\');
+                esc.push_back(c);
+              }
+              else if (static_cast<unsigned char>(c) < 0x20)
+                esc.push_back(' ');
+              else
+                esc.push_back(c);
+            o << (first ? "" : ", ") << "\"" << si->get_id() << "\": \"" << esc << "\"";
+            first = false;
+          }
+        strings_of(t->get_types(), o, first, seen);
+      }
+    }
+    static std::string strings(solver &s)
+    {
+      std::ostringstream o;
+      o << "{";
+      bool first = true;
+      std::set<const type *> seen;
+      strings_of(s.get_types(), o, first, seen);
+      o << "}";
+      return o.str();
+    }
+
+    // the instance registry (property C17): for every type its `instances` in order (duplicates kept); for every
+    // enum type the values a NEW variable of the type ranges over (spellings, sorted)
+    static void registry_of(solver &s, const std::map<std::string, type *> &ts, const std::string &prefix, std::ostringstream &o, bool &first, std::set<const type *> &seen)
+    {
+      for (const auto &[n, t] : ts)
+      {
+        if (!seen.insert(t).second || t->is_primitive())
+          continue;
+        o << (first ? "" : ", ") << "\"" << prefix << n << "\": {\"instances\": [";
+        first = false;
+        bool fi = true;
+        for (const auto &i : t->get_instances())
+        {
+          o << (fi ? "" : ", ") << i->get_id();
+          fi = false;
+        }
+        o << "]";
+        if (enum_type *et = dynamic_cast<enum_type *>(t))
+        {
+          std::vector<std::string> vals;
+          for (const auto &v : et->get_all_instances())
+            if (const string_item *si = dynamic_cast<const string_item *>(v))
+              vals.push_back(si->get_value());
+          std::sort(vals.begin(), vals.end());
+          o << ", \"enum_values\": [";
+          bool fv = true;
+          for (const auto &v : vals)
+          {
+            o << (fv ? "" : ", ") << "\"" << v << "\"";
+            fv = false;
+          }
+          o << "]";
+        }
+        o << "}";
+        registry_of(s, t->get_types(), prefix + n + ".", o, first, seen);
+      }
+    }
+    static std::string registry(solver &s)
+    {
+      std::ostringstream o;
+      o << "{";
+      bool first = true;
+      std::set<const type *> seen;
+      registry_of(s, s.get_types(), "", o, first, seen);
+      o << "}";
+      return o.str();
+    }
+
     static std::string graph(solver &s)
     {
       auto val = [&s](const smt::lit &l)
@@ -153,7 +244,7 @@ int main(int argc, char *argv[])
           for (auto &c : tl)
             if (c == '\n' || c == '\r')
               c = ' ';
-          res = "T " + js + " \tTL " + tl + " \tJG " + oratio_verif::access::graph(*s);
+          res = "T " + js + " \tTL " + tl + " \tJG " + oratio_verif::access::graph(*s) + " \tST " + oratio_verif::access::strings(*s) + " \tTI " + oratio_verif::access::registry(*s);
         }
         else
           res = "F";
